@@ -32,7 +32,9 @@ PROPS = {
                  "message, headers and trailers. Oracle: the backend saw the caller's method, messages (bytes, order, count) and custom metadata; the caller saw the backend's messages, trailers, status code and "
                  "message, and its headers whenever it sent >=1 message; the serving backend belongs to the route the specificity reference selects; unrouted => NotFound and no backend saw a stream. Pool history: N "
                  "sequential calls per backend open <=1 connection; after a backend leaves the table its connection ends within cleanup interval + grpcshutdowntimeout + slack while the other backend keeps its "
-                 "connection; re-adding works. Non-trivial = streaming call with >=2 messages in some direction, non-OK status with trailers, or a call after a table change."),
+                 "connection; re-adding works. First-use history on 4 fresh backends: bursts of 2-24 simultaneous first calls per backend all succeed, 20 later calls open no further connection, a stream opened before "
+                 "the route's weight moves entirely to another instance survives the 5 s clean-up cycle (its backend stays in the table at 0%) and keeps its connection, and after the backends leave the table "
+                 "no connection to them is left within 11 s. Non-trivial = streaming call with >=2 messages in some direction, non-OK status with trailers, or a call after a table change."),
         "technique": "rapid model-based test of an in-process gRPC proxy chain with scripted backends (byte-exact message, metadata and status comparison) plus a connection-pool history",
         "level_text": "Generated calls and table changes are executed against the real gRPC proxy options of main.go with scripted backends; everything each side received is compared with what the other side sent, and routing is compared with the specificity reference. Exploration only.",
         "level_note": "Messages are well-formed protobuf wire messages (the proxy re-marshals them through emptypb unknown fields); plain-text gRPC only (no grpcs upstreams); the pool check is timing-bounded with 4 s slack.",
@@ -59,7 +61,8 @@ PROPS = {
     },
     "C14": {
         "units": [
-            {"pkg": "./c14", "shards": 4, "shards_thorough": 16, "timeout": 900},
+            {"pkg": "./c14", "run": "TestC14Commands", "shards": 4, "shards_thorough": 16, "timeout": 900},
+            {"pkg": "./c14", "run": "TestC14ConcurrentBuild", "race": True, "shards": 2, "shards_thorough": 6, "timeout": 900},
             {"pkg": "./mainpkg", "run": "^TestC14", "shards": 4, "shards_thorough": 8, "timeout": 1200},
         ],
         "rule": ("rapid-generated Consul catalog entries: service names (plain, dotted, with space/tab/newline, quote, backslash, non-ASCII, empty, keywords), service/node addresses (IPv4, IPv6, host name, empty -> node "
@@ -69,7 +72,8 @@ PROPS = {
                  "exactly one 'route add' that NewTable accepts and whose service, source (lower-cased expanded host + path), destination (scheme by proto, JoinHostPort), weight, tags and options equal one route tag "
                  "of the registration; every expressible tag of an expressible registration must be emitted; NewTable over all services succeeds and contains every neighbour's routes. Pipeline form (fake Consul + real "
                  "loop): histories in which an odd registration (name with space, quote in a tag, weight=abc/Inf, bad redirect URL, bad glob, empty prefix, newline injection) appears and leaves while neighbours keep "
-                 "changing: the table keeps following the neighbours after every step. Non-trivial = registration with a character outside [A-Za-z0-9._/:=-,$*] or a non-numeric weight; histories with an odd registration."),
+                 "changing: the table keeps following the neighbours after every step. Concurrent form (-race): 8-48 registrations derived by 2-16 workers at once (registry.consul.serviceMonitors > 1) must yield exactly "
+                 "the commands each yields alone. Host parts include uncompilable globs ([v2.example.com, {a.example.com). Non-trivial = registration with a character outside [A-Za-z0-9._/:=-,$*] or a non-numeric weight; histories with an odd registration."),
         "technique": "rapid property test: generator/parser round trip across packages (routecmd.build -> route.Parse/NewTable) plus model-based pipeline histories with a fake Consul API",
         "level_text": "Generated registrations are turned into route commands by fabio and fed back to fabio's own parser and table builder; each command must denote the registration. The same odd registrations are injected into live pipeline histories and the table must keep tracking the other services. Exploration only.",
         "level_note": "A comma inside a plain tag splits it (the command language uses the comma as separator) and 'tags \"\"' means no tags; both are taken as the language's denotation, not as violations.",
@@ -131,7 +135,8 @@ PROPS = {
                  "then reads to EOF}, PROXY protocol on/off, on SNI listeners a crypto/tls ClientHello (with/without the 1.2 KiB post-quantum key share) followed by 0-3000 stream bytes in the SAME write. Oracle: upstream "
                  "received exactly [PROXY line computed from the socket addresses] ++ [ClientHello] ++ client stream, client received exactly the upstream stream, SNI lookup key == server name. Non-trivial = either stream "
                  "> 32 KiB, or >=3 segments, or data in the ClientHello's segment, or a half-close. Half-close cases are a recorded known finding: excluded from the main search (counted in excluded_known) and re-confirmed "
-                 "by a dedicated sub-check."),
+                 "by a dedicated sub-check. Long-lived sub-check: batches of 10-16 generated tunnels of every kind run concurrently, each with one direction (or both) going quiet for 1.05-2.5 s "
+                 "before a generated segment - longer than the proxies' handshake timers - and then continuing; same byte-exact oracle."),
         "technique": "rapid property test over real loopback tunnels with scripted endpoints (byte-exact stream comparison in both directions)",
         "level_text": "Generated byte streams, segmentations and close orders are pushed through fabio's TCP, SNI, dynamic and websocket tunnels on real sockets; what each end received is compared byte for byte with what the other end sent. Exploration only.",
         "level_note": "Loopback TCP with the kernel's own segmentation (TCP_NODELAY is Go's default so one write is usually one segment); 'finishes first' cases are generated so that the finishing side has no unread inbound data (otherwise the kernel itself resets the connection).",
@@ -152,14 +157,19 @@ PROPS = {
         "assumptions": COMMON_ASSUME,
     },
     "C07": {
-        "units": [{"pkg": "./c07", "shards": 6, "shards_thorough": 16, "timeout": 900}],
+        "units": [
+            {"pkg": "./c07", "run": "TestC07PassThrough|TestC07NoRoute", "shards": 6, "shards_thorough": 16, "timeout": 900},
+            {"pkg": "./c07", "run": "TestC07ConcurrentExchanges", "race": True, "shards": 2, "shards_thorough": 6, "timeout": 900},
+        ],
         "rule": ("real loopback chain raw-TCP client -> proxy.HTTPProxy (httptest server, real http.Transport) -> recording upstream. rapid-generated requests: method (GET POST PUT DELETE PATCH OPTIONS HEAD PURGE), "
                  "request target with percent-encoded octets (%2F %2f %20 %41 %C3%A9 %25 %3F %23), dot segments, empty segments, query (absent / encoded / repeated keys), 0-8 end-to-end headers with odd-cased and "
                  "repeated names and empty values, body 0 B-256 KiB (thorough 4 MiB) with Content-Length or chunked in 1-5 chunks; routes over every combination of strip, prepend, host=dst|name|none, target query; "
                  "upstream answers with status 200-599 (incl. 204/304), 0-6 headers incl. repeated Set-Cookie, body in 1-5 flushed writes. Oracle: upstream saw the same method, body bytes and every client end-to-end "
                  "header value list and nothing else (managed forwarding headers excluded), request target == prepend + strip(raw path) [?target query & client query], Host per route option; client saw the upstream's "
                  "status, header value lists and body bytes; no route => configured status (404 outside 100-999) + no-route page, upstream hit counter unchanged. Non-trivial = request with an encoded octet or a body "
-                 "AND route with strip, prepend or target query; distinct by (route, method, path, query, body size, chunking, status)."),
+                 "AND route with strip, prepend or target query; distinct by (route, method, path, query, body size, chunking, status). Concurrent unit (-race): 2-12 exchanges released together on one proxy, "
+                 "1-3 rounds (later rounds meet whatever earlier ones left pooled), request/response bodies 0 B-1 MiB around the 32 KiB copy-buffer size, Content-Length or chunked, 1-6 flushed upstream writes, "
+                 "flush interval 0 or 5 ms; every body is derived from the exchange id, each client must receive exactly its own body and the upstream exactly the client's; non-trivial = >=2 overlapping bodies >32 KiB."),
         "technique": "rapid property test over a real loopback proxy chain with a recording upstream (differential between what was sent and what was received on both sides)",
         "level_text": "Every generated exchange is run through a real listener, fabio's HTTP handler, a real transport and a recording upstream; both directions are compared field by field with what the other side sent, with the documented path/query/Host rewriting applied by a string-level model. Exploration only.",
         "level_note": "HTTP/1.1 only; hop-by-hop headers and the forwarding headers of C08 are excluded from the comparison; the Go HTTP stack between the sockets is trusted.",
@@ -239,7 +249,9 @@ PROPS = {
                  "builder from crypto/tls extension payloads: arbitrary extension order, GREASE/unknown types, padding 0-4000 bytes, SNI lists with foreign name types, no SNI, no extension block, record longer than the "
                  "handshake; (3) 1-4 byte corruptions inside the handshake body; (4) every truncation point of every hello of (1)-(2); (5) arbitrary 0-12 byte record/handshake headers. Oracle: the same bytes fed to a "
                  "crypto/tls server (GetConfigForClient records ServerName): whenever it accepts, fabio must accept with the same name; builder knows the name it wrote; buffer size == 9 + handshake length <= 5 + record "
-                 "length and accepted iff the header is a valid single-record ClientHello header; no panic anywhere. Non-trivial = well-formed hello with >=3 extensions (distinct by bytes after the random), plus distinct "
+                 "length and accepted iff the header is a valid single-record ClientHello header; no panic anywhere; (6) edits of +-1..4/255 to one or two of the nested length fields around the name (record, handshake, "
+                 "extension block, SNI extension, name list, name), with the SNI extension last, first or in the middle. The parser is always given an exact-capacity copy of the buffered bytes (a read past them panics), "
+                 "and every non-empty name it returns must be the bytes of a host_name entry lying, by its own length field, inside a server_name extension (independent walker). Non-trivial = well-formed hello with >=3 extensions (distinct by bytes after the random), plus distinct "
                  "corrupted bodies and accepted headers."),
         "technique": "rapid property tests, differential against crypto/tls on generated, built, corrupted and truncated ClientHellos; native go fuzzing (thorough)",
         "level_text": "Differential testing of fabio's ClientHello parser against the Go TLS stack over generated client configurations, harness-built hellos and corruptions, plus an exhaustive truncation sweep per hello and header-space sampling of the buffer-size function. Exploration only.",
